@@ -11,7 +11,7 @@ use monitors::driver::{Check, deaths_as_violations, sub_mark, sub_mark_n};
 use monitors::evidence::{Ctx, Frag, Report};
 use monitors::run::{Death, STACK_2MIB, catch, death_json, on_stack};
 use pilota::prost::Message;
-use refmodel::pb::{FKind, Label, PGen, PKnobs, PMsgVal, PSchema, PTy, PV, canon, decode as refdec, default_of, encode as refenc, permute, records, unknown_field};
+use refmodel::pb::{FKind, Label, PField, PGen, PKnobs, PMsgVal, PSchema, PTy, PV, canon, decode as refdec, default_of, encode as refenc, permute, records, unknown_field};
 use refmodel::rng::{Rng, fnv1a, hex};
 use serde_json::{Value, json};
 
@@ -575,12 +575,32 @@ fn inject_unknown(v: &PMsgVal, rng: &mut Rng, depth: usize) -> PMsgVal {
 fn c18_one(ctx: &Ctx, m: usize, k: u64, frag: &mut Frag) {
     let c = pc();
     let a = gen_val(ctx, m, k, 0xC18);
-    let b = gen_val(ctx, m, k + 7919, 0xC18);
     let o = &c.ops[m];
     let mut rng = Rng::new(ctx.seed ^ 0x1818 ^ k ^ (m as u64) << 20);
+    // every third case b is derived from a: the same map keys, about half of them with the
+    // DEFAULT value (which an encoder may leave out of the entry: the later entry must still
+    // replace the earlier one), the other fields as in an independent value
+    let derived = k % 3 == 1;
+    let b = if derived {
+        let mut b = gen_val(ctx, m, k + 7919, 0xC18);
+        b.0.retain(|(num, _)| !c.schema.msgs[m].fields.iter().any(|f| f.num == *num && matches!(f.kind, FKind::Map(..))));
+        for (num, pv) in &a.0 {
+            if let Some(PField { kind: FKind::Map(_, vt), .. }) = c.schema.msgs[m].fields.iter().find(|f| f.num == *num) {
+                if let PV::Entry(key, val) = pv {
+                    let v = if rng.chance(1, 2) { default_of(&c.schema, vt) } else { (**val).clone() };
+                    b.0.push((*num, PV::Entry(key.clone(), Box::new(v))));
+                    frag.count("derived.same_key_entries");
+                }
+            }
+        }
+        b
+    } else {
+        gen_val(ctx, m, k + 7919, 0xC18)
+    };
     let knobs = PKnobs { packing: (k % 3) as u8, map_entry: 0 };
     let ea = refenc(&c.schema, m, &a, &knobs);
-    let eb = refenc(&c.schema, m, &b, &PKnobs { packing: ((k + 1) % 3) as u8, map_entry: 0 });
+    // (derived: default values are left out of the entries, as pilota's own encoder does)
+    let eb = refenc(&c.schema, m, &b, &PKnobs { packing: ((k + 1) % 3) as u8, map_entry: if derived { 3 } else { 0 } });
     frag.eval();
     frag.distinct(fnv1a(format!("{}{:?}{:?}", mname(m), a, b).as_bytes()));
     if frag.samples.len() < 2 && k == 2 {
@@ -708,6 +728,7 @@ impl Check for C18 {
         for k in ["concat_vs_merge", "interleavings", "unknown_field_injections"] {
             r.floor(k, 200);
         }
+        r.floor("derived.same_key_entries", 20);
         for k in ["observed.repeated_accumulate", "observed.embedded_message_merged", "observed.map_entries_from_both", "observed.oneof_member_replaced"] {
             r.floor(k, 5);
         }
